@@ -4,6 +4,7 @@ import XmppModel.Model.Encoder
 import XmppModel.Model.SendGuard
 import XmppModel.Model.ValueForms
 import XmppModel.Model.Transport
+import XmppModel.Model.SendFlush
 /-! Driver for C05 (see harness/c05 for the line protocol).
 
     tx <entry> <ns> <from|-> <startTok|-> <toks>   -> <status> <canonical wire tokens>
@@ -17,6 +18,12 @@ import XmppModel.Model.Transport
                                                        (a Send parked after `park` tokens of its element, stopping after k; the second
                                                        call queued for the lock; statuses from the SendGuard LTS
                                                        with the guard under the lock, wire from the encoder model)
+    queued <ns> <from|-> <entry> <startTok|-> <toks> <form> <wentry> <wmode> <wtoks> <hw|wh>
+                                                   -> <status> <status of the queued call> <canonical wire when the call returned> <final wire>
+                                                       (SendFlush LTS: a pre-holder, the call, a queued call that parks / gives
+                                                       up before its first token; run on the observed lock order)
+    pend <n> <same|diff> <entry> <ns> <from|-> <startTok|-> <toks> <form>
+                                                   -> the answer of the `tx` line (n requests are pending when the call is made)
     conc <n> <i0,i1,…>                             -> ok | bad   (is the observed order of
                                                        complete blocks a permutation of the calls)
 -/
@@ -57,8 +64,52 @@ def handedToks (entry start : String) (ts : List Tok) : Option (List Tok) :=
   | "msg" => match stanzaSendToks .message fresh ts with | .ok o => some o | .error _ => none
   | _ => none
 
-def handle (args : List String) : Option String :=
+/-- the tokens an entry point hands to the session's encoder, value forms included (the `tx`
+line's model, as a function) -/
+def handedForm (entry start form : String) (ts : List Tok) : Option (List Tok) :=
+  match entry with
+  | "send" => match sendToks ts with | .ok o => some o | .error _ => none
+  | "sendel" => do
+    let (n, as) ← startOf start
+    pure (sendElementToks n as ts)
+  | "enc" => some (ValueForms.handed (ValueForms.sourceOfForm form) ts)
+  | "tw" => some ts
+  | "encel" => do
+    let (n, as) ← startOf start
+    pure (replaceOuter n as 0 (ValueForms.handed (ValueForms.sourceOfForm form) ts))
+  | "iq" => match stanzaSendToks .iq fresh ts with | .ok o => some o | .error _ => none
+  | "msg" => match stanzaSendToks .message fresh ts with | .ok o => some o | .error _ => none
+  | "pres" => match stanzaSendToks .presence fresh ts with | .ok o => some o | .error _ => none
+  | _ => none
+
+def handle0 (args : List String) : Option String :=
   match args with
+  | ["queued", ns, from_, entry, start, toks, form, _wentry, wmode, wtoks, order] => do
+    let fr ← if from_ == "-" then some "" else hexDecodeStr from_
+    let cfg : Cfg := ⟨ns, fr⟩
+    let ts ← decToks toks
+    let ws ← decToks wtoks
+    let h ← handedForm entry start form ts
+    -- one item per call: its whole block (the interleaving of items is C05_atomic's subject)
+    let prog : SendFlush.Prog (List Tok) :=
+      { job := fun i => if i = 0 then [wireToks cfg fresh h] else if i = 1 then [wireToks cfg fresh ws] else [],
+        stopAt := fun i => if i = 1 && wmode != "park" then some 0 else none,
+        lazy := false }
+    let c (i : Nat) : SendFlush.Act := .call i
+    -- call 2 is the handle that holds the lock while the two calls queue
+    let pre := [c 2, c 2, c 0, c 1, c 2]
+    let (s1, fin) :=
+      if order == "hw" then
+        let s1 := SendFlush.run prog (SendFlush.init _) (pre ++ [c 0, c 0, c 0])
+        (s1, SendFlush.run prog s1 [c 1, c 1, c 1])
+      else
+        let s1 := SendFlush.run prog (SendFlush.init _) (pre ++ [c 1, c 1, c 1, c 0, c 0, c 0])
+        (s1, s1)
+    let st (p : SendFlush.Pc) : Option String :=
+      match p with | .ok => some "ok" | .err => some "fail" | _ => none
+    let sH ← st (s1.pc 0)
+    let sW ← st (fin.pc 1)
+    pure s!"{sH} {sW} {encToks (canon cfg.ns s1.wire.flatten)} {encToks (canon cfg.ns fin.wire.flatten)}"
   | ["behind", mode, park, k, htoks, entry, ns, from_, start, toks] => do
     let fr ← if from_ == "-" then some "" else hexDecodeStr from_
     let cfg : Cfg := ⟨ns, fr⟩
@@ -184,5 +235,12 @@ def handle (args : List String) : Option String :=
     let l ← mapM? (fun (s : String) => s.toNat?) (splitList order)
     pure (if isPermOfRange n l then "ok" else "bad")
   | _ => none
+
+/-- `pend <n> <same|diff> <rest of a tx line>`: requests that are still waiting for their response
+(with the same id or not) are not an input of the transmit path: the answer is the `tx` line's -/
+def handle (args : List String) : Option String :=
+  match args with
+  | "pend" :: _n :: _mode :: rest => handle0 ("tx" :: rest)
+  | _ => handle0 args
 
 end XmppModel.Driver.C05
